@@ -20,7 +20,8 @@ Inductive ck :=
                                            (* pkeys: Key of each CallParam{Value,Content}Node; None = any other node type *)
 | KFor (var : bstr)                        (* children: List, Body, then IfEmpty when present *)
 | KRef (key : bstr)                        (* DataRefNode *)
-| KFunc (name : bstr) (arg0 : option bstr) (* FunctionNode; arg0 = Key of Args[0] when that is a DataRefNode *)
+| KFunc (name : bstr) (arg0 : option bstr) (* FunctionNode; arg0 = Key of Args[0] when Args is exactly one DataRefNode without
+                                              accesses (the only shape checkLoopFunc accepts for index/isFirst/isLast) *)
 | KHeaderParam
 | KOther.
 
@@ -37,11 +38,15 @@ Definition param_key (n : node) : option bstr :=
 Definition ref_key (n : node) : option bstr :=
   match n with NDataRef _ k _ => Some k | _ => None end.
 
+(* checkLoopFunc: len(node.Args) == 1, Args[0] a *ast.DataRefNode with len(ref.Access) == 0 *)
+Definition loop_arg (args : list node) : option bstr :=
+  match args with [NDataRef _ k []] => Some k | _ => None end.
+
 Fixpoint view (n : node) : rt :=
   let opt := fun (o : option node) => match o with Some x => [view x] | None => [] end in
   match n with
   | NNull _ | NBool _ _ | NInt _ _ | NFloat _ _ | NString _ _ _ | NGlobal _ _ _ => RT KOther []
-  | NFunc _ name args => RT (KFunc name (match args with a :: _ => ref_key a | [] => None end)) (map view args)
+  | NFunc _ name args => RT (KFunc name (loop_arg args)) (map view args)
   | NListLit _ items => RT KOther (map view items)
   | NMapLit _ items => RT KOther (map (fun kv => match kv with (_, e) => view e end) items)
   | NDataRef _ key access => RT (KRef key) (map view access)
